@@ -10,7 +10,7 @@ import re
 
 PROPERTY = "C09"
 LEVEL = "exploration"
-RULE = ("generated project trees of 2-8 files in nested directories; import / include-str expressions at 27 syntactic positions in entry "
+RULE = ("generated project trees of 2-8 files in nested directories; import / include-str expressions at 28 syntactic positions in entry "
         "and library files; paths spelled plain, ./, dir/../, redundant, up-and-down, absolute; random DAGs (diamonds, chains, one file under "
         "several spellings) and graphs with one back edge (3 forms x spellings, cycle length 1-3); unreadable / missing / broken import "
         "targets with a healthy decoy at the cwd-relative path; every world built from 3 working directories (project root, nested project "
@@ -49,6 +49,7 @@ POS = {
     "select_default": 'let v@N@ = select ("z", @E@) => { a = "A" };',
     "select_val": 'let v@N@ = select (@E@, "miss") => { "@X@" = "hit" };',
     "format_arg": 'let v@N@ = "@" % (@E@);',
+    "format_template": 'let v@N@ = "@{@EQ@}" % {x = 1};',
     "copy_override": 'let b@N@ = {f = "x"};\nlet v@N@ = b@N@{f = @E@}.f;',
     "trace": 'let v@N@ = TRACE @E@;',
     "not": 'let v@N@ = select (not (@E@ == "@X@"), "x") => { true = "not-wrong", false = "not-right" };',
@@ -292,7 +293,7 @@ def render_file(world, i, proj_abs, ids, target_value):
                 e = 'idf(include str "%s")' % p
             else:
                 e = '(include str "%s")' % p
-            L.append(POS[s["pos"]].replace("@E@", e).replace("@N@", str(n)).replace("@X@", x))
+            L.append(POS[s["pos"]].replace("@EQ@", e.replace('"', '\\"')).replace("@E@", e).replace("@N@", str(n)).replace("@X@", x))
         vs.append("v%d" % n)
     be = world["back_edge"]
     if be and be["from"] == i:
@@ -305,7 +306,8 @@ def render_file(world, i, proj_abs, ids, target_value):
             L.append('let backf = func (x) => (import "%s").id;\nlet back = backf(1);' % p)
         else:
             pos = be["form"].split(":", 1)[1]
-            L.append(POS[pos].replace("@E@", '(import "%s").id' % p).replace("@N@", "back").replace("@X@", "zz"))
+            e = '(import "%s").id' % p
+            L.append(POS[pos].replace("@EQ@", e.replace('"', '\\"')).replace("@E@", e).replace("@N@", "back").replace("@X@", "zz"))
     if vs:
         # values pass through the identity function so that the static checker's opinion about them (C07's business) stays out of the way
         L.append('let id = "%s[" + %s + "]";' % (f["uid"], ' + "," + '.join("idf(%s)" % v for v in vs)))
@@ -520,7 +522,7 @@ def execute(world, sb, res):
             fs = world["fail_site"]
             want = ids[fs["target"]]
             if decoy_in_out:
-                res.violate("C09.wrong-file", "fail_msg", "the fail message was computed from the decoy file %s (resolved against the working directory)\n%s" % (decoy_in_out, ctx))
+                res.violate("C09.wrong-file", "resolved-against-cwd", "the fail message was computed from the decoy file %s (resolved against the working directory)\n%s" % (decoy_in_out, ctx))
             elif inv.status == 0:
                 res.violate("C09.fail-ignored", "fail_msg", "a file whose only statement is a fail expression built successfully\n" + ctx)
             elif want not in out:
@@ -532,7 +534,7 @@ def execute(world, sb, res):
             res.fault(fault["kind"]) if inv.status != 0 else None
             # the property does not say how an unreadable import fails; it must not be answered by the decoy
             if decoy_in_out or (isinstance(artifact, dict) and any(u in json.dumps(artifact) for u in decoy_uids)):
-                res.violate("C09.wrong-file", "fault-" + fault["kind"], "a broken import target was answered by the decoy file at the cwd-relative path\n" + ctx)
+                res.violate("C09.wrong-file", "broken-target-answered-by-decoy", "(fault %s) a broken import target was answered by the decoy file at the cwd-relative path\n" % fault["kind"] + ctx)
             if inv.status == 0:
                 res.metric("build_succeeded_despite_broken_import")
             continue
@@ -556,7 +558,7 @@ def execute(world, sb, res):
                 hit = [u for u in decoy_uids if re.search(r"%s\b" % re.escape(u), blob)]
                 if hit:
                     culprit = sorted(set().union(*[decoy_pos.get(u, set()) for u in hit])) or [s["pos"]]
-                    res.violate("C09.wrong-file", "+".join(culprit), "site v%d of the entry (%s at position %s, path spelled %s) evaluated to %r, which contains the decoy id %s "
+                    res.violate("C09.wrong-file", "resolved-against-cwd", "site v%d of the entry (%s at position %s, path spelled %s) evaluated to %r, which contains the decoy id %s "
                                 "(an import/include at position %s was resolved against the working directory); expected %r\n%s" % (
                                     nsite, s["kind"], s["pos"], s["spelling"], got, hit, culprit, want, ctx))
                 else:
@@ -573,7 +575,7 @@ def execute(world, sb, res):
         dec = [u for u in counts if u.startswith("decoy-")]
         if dec and not res.violations:
             pos = "+".join(sorted(set().union(*[decoy_pos.get(u, set()) for u in dec]))) or "unknown"
-            res.violate("C09.wrong-file", pos, "decoy file(s) %s were evaluated (an import was resolved against the working directory)\n%s" % (dec, ctx))
+            res.violate("C09.wrong-file", "resolved-against-cwd", "candidate positions: %s\n" % pos + "decoy file(s) %s were evaluated (an import was resolved against the working directory)\n%s" % (dec, ctx))
         for i, f in enumerate(files):
             c = counts.get(f["uid"], 0)
             if c > 1:
